@@ -3,7 +3,6 @@ import MythVerif.Proofs.WsQueueTsoTac
 namespace MythVerif.WsqTso
 open MythVerif.Wsq
 
-set_option maxHeartbeats 4000000 in
 theorem t_wq0 (s s' : St) (p : Pid) : Inv s → s.tpc p = .wq0 → stepT s p = some s' → Inv s' := by
   intro h heq hs
   have hb := h.tbufE p (by simp [heq, mayBuf])
@@ -11,7 +10,6 @@ theorem t_wq0 (s s' : St) (p : Pid) : Inv s → s.tpc p = .wq0 → stepT s p = s
   simp at hs; subst hs
   tso_fastT h p []
 
-set_option maxHeartbeats 4000000 in
 theorem t_wq1 (s s' : St) (p : Pid) (t) : Inv s → s.tpc p = .wq1 t → stepT s p = some s' → Inv s' := by
   intro h heq hs
   have hb := h.tbufE p (by simp [heq, mayBuf])
@@ -20,7 +18,6 @@ theorem t_wq1 (s s' : St) (p : Pid) (t) : Inv s → s.tpc p = .wq1 t → stepT s
   all_goals (simp at hs; subst hs)
   all_goals tso_fastT h p []
 
-set_option maxHeartbeats 4000000 in
 theorem t_wtl (s s' : St) (p : Pid) : Inv s → s.tpc p = .wtl → stepT s p = some s' → Inv s' := by
   intro h heq hs
   have hb := h.tbufE p (by simp [heq, mayBuf])
@@ -30,7 +27,6 @@ theorem t_wtl (s s' : St) (p : Pid) : Inv s → s.tpc p = .wtl → stepT s p = s
   all_goals (simp at hs; subst hs)
   all_goals tso_fastT h p []
 
-set_option maxHeartbeats 4000000 in
 theorem t_wk1 (s s' : St) (p : Pid) : Inv s → s.tpc p = .wk1 → stepT s p = some s' → Inv s' := by
   intro h heq hs
   have hb := h.tbufE p (by simp [heq, mayBuf])
@@ -38,7 +34,6 @@ theorem t_wk1 (s s' : St) (p : Pid) : Inv s → s.tpc p = .wk1 → stepT s p = s
   simp at hs; subst hs
   tso_fastT h p []
 
-set_option maxHeartbeats 4000000 in
 theorem t_wkf (s s' : St) (p : Pid) (b) : Inv s → s.tpc p = .wkf b → stepT s p = some s' → Inv s' := by
   intro h heq hs
   have hcfg := h.cfg
